@@ -65,3 +65,23 @@ func VerifC13Source() {
 	nd.Assert(err2 == nil && out2 == want, "custom-delimiters-trim-the-same")
 	nd.Reach("C13.source")
 }
+
+// VerifC13Invisible: hyphens remove whitespace only — an invisible character that is not whitespace
+// (zero-width space and joiners, byte order mark, soft hyphen, word joiner, control characters)
+// next to the trimmed whitespace stays, on either side.
+func VerifC13Invisible() {
+	inv := []string{"\u200c", "\u200b", "\ufeff", "\u00ad", "\u2060", "\x00", "\x1f", "\u200d\u200e"}[nd.Choice(8)]
+	w := []string{" ", " \n\t", "\n"}[nd.Choice(3)]
+	var t, want string
+	switch nd.Choice(3) {
+	case 0:
+		t, want = "a"+inv+w+"{{- 1 -}}"+w+inv+"b", "a"+inv+"1"+inv+"b"
+	case 1:
+		t, want = inv+w+"{%- assign y = 1 -%}"+w+inv, inv+inv
+	case 2:
+		t, want = "a"+w+inv+"{{- 1 -}}"+inv+w+"b", "a"+w+inv+"1"+inv+w+"b"
+	}
+	out, err := NewEngine().ParseAndRenderString(t, Bindings{})
+	nd.Assert(err == nil && out == want, "hyphens-remove-whitespace-only")
+	nd.Reach("C13.invisible")
+}
